@@ -81,6 +81,7 @@ def make_taint(W):
 
     T_ = Taint(W, [("config.seed()", src_seed), ("load_seed/decrypt", src_load), ("secret-key-bytes", src_key), ("env::var(ROUGHENOUGH_SEED)", src_env)], ("seed", "signing_key", "secret_key"), declass, scope=in_scope)
     T_.data_free_types = DATA_FREE_ERR
+    T_.err_payloads_fn = lambda t_: err_payloads(W, T_, t_)
     return T_
 
 
